@@ -892,6 +892,20 @@ func runC10(e *Engine, r *Report, tier string) {
 			if callName(c) == "SetAllowance" && e.allowanceDecrementShape(rootFn(fn)) {
 				return // the owner of a check-and-decrement is the `from` whose allowance the caller spends (R2)
 			}
+			if callName(c) == "SetAllowance" && fn != rootFn(fn) {
+				if _, set, _, ok := e.allowanceDecrementParts(fn); ok && set == c {
+					// the same, written out next to the share transfer: R2 checks owner, spender and amount at that site
+					spenderOK := false
+					for _, x := range nonCtxArgs(c) {
+						if ok, _ := e.rootsAtCaller(x); ok && (strings.Contains(x.Type().String(), "Address") || strings.Contains(x.Type().String(), "[]byte")) {
+							spenderOK = true
+						}
+					}
+					if spenderOK {
+						return
+					}
+				}
+			}
 			args := nonCtxArgs(c)
 			if idx >= len(args) {
 				r.Undecided("R1", e.FnKey(fn)+" "+callName(c), e.InstrPos(c), "subject table position does not exist at this call (API changed): review the table")
@@ -1009,6 +1023,35 @@ func runC10(e *Engine, r *Report, tier string) {
 						why = fmt.Sprintf("allowance decrement arguments do not match (owner=%v spender=Caller:%v amount=%v)", hasOwner, hasSpender, hasAmt)
 					}
 				})
+				if !okDec {
+					// the check-and-decrement written out in the calling function itself
+					if get, set, amt, ok := e.allowanceDecrementParts(cs.Caller); ok {
+						ordered := Dominates(set, cs.Call)
+						if !ordered && MustPassThrough(cs.Caller, cs.Call, func(i ssa.Instruction) bool { return i == ssa.Instruction(set) }) == nil {
+							ordered = true
+						}
+						keyOK := func(c ssa.CallInstruction) bool {
+							hasOwner, hasSpender := false, false
+							for _, x := range c.Common().Args {
+								if SameExpr(stripBytes(x), stripBytes(a), 6) {
+									hasOwner = true
+								} else if ok, _ := e.rootsAtCaller(x); ok && !isCtxType(x.Type()) && (strings.Contains(x.Type().String(), "Address") || strings.Contains(x.Type().String(), "[]byte")) {
+									hasSpender = true
+								}
+							}
+							return hasOwner && hasSpender
+						}
+						hasAmt := sharesArg != nil && amt != nil && SameExpr(amt, sharesArg, 6)
+						switch {
+						case !ordered:
+							why = "the allowance decrement does not run on every path that moves the shares"
+						case !keyOK(get) || !keyOK(set) || !hasAmt:
+							why = fmt.Sprintf("allowance decrement arguments do not match (read key=%v written key=%v amount=%v)", keyOK(get), keyOK(set), hasAmt)
+						default:
+							okDec = true
+						}
+					}
+				}
 				r.Check(okDec, "R2", ck, e.InstrPos(cs.Call), "call-data `from` behind allowance check-and-decrement(owner=from, spender=Caller(), same shares)", "shares of an account that is not the caller can be moved: "+why)
 			}
 		}
@@ -1317,7 +1360,12 @@ func stripBytes(v ssa.Value) ssa.Value {
 
 // allowanceDecrementShape: f reads the allowance (family staking:90 via a getter), fails when allowance < x, and writes allowance - x.
 func (e *Engine) allowanceDecrementShape(f *ssa.Function) bool {
-	var get, set ssa.CallInstruction
+	_, _, _, ok := e.allowanceDecrementParts(f)
+	return ok
+}
+
+// allowanceDecrementParts returns the read, the write and the compared amount of a check-and-decrement found in f.
+func (e *Engine) allowanceDecrementParts(f *ssa.Function) (get, set ssa.CallInstruction, cmpAmt ssa.Value, okShape bool) {
 	allCalls(f, func(c ssa.CallInstruction) {
 		if e.callDirectOp(c, "staking", "90", "get") && get == nil {
 			get = c
@@ -1327,12 +1375,11 @@ func (e *Engine) allowanceDecrementShape(f *ssa.Function) bool {
 		}
 	})
 	if get == nil || set == nil {
-		return false
+		return
 	}
 	gv := get.(ssa.Value)
 	// guard: allowance.Cmp(x) < 0 -> fail, dominating set
 	okGuard := false
-	var cmpAmt ssa.Value
 	for _, g := range GuardsOf(set) {
 		rel, ok := RelOf(g)
 		if !ok || rel.A == nil || rel.B == nil {
@@ -1351,19 +1398,30 @@ func (e *Engine) allowanceDecrementShape(f *ssa.Function) bool {
 		}
 	}
 	if !okGuard {
-		return false
+		return
 	}
 	// written value = Sub(allowance, x)
 	okSub := false
 	for _, a := range set.Common().Args {
 		if c, ok := a.(*ssa.Call); ok && callName(c) == "Sub" {
 			as := callArgs(c)
-			if len(as) == 3 && as[1] == gv && as[2] == cmpAmt {
+			if len(as) == 3 && as[1] == gv && (as[2] == cmpAmt || SameExpr(as[2], cmpAmt, 6)) {
 				okSub = true
 			}
 		}
 	}
-	return okSub
+	// the allowance written is the one that was read: same key arguments, position by position
+	ga, sa := nonCtxArgs(get), nonCtxArgs(set)
+	if len(ga) == 0 || len(sa) != len(ga)+1 {
+		return
+	}
+	for i := range ga {
+		if ga[i] != sa[i] && !SameExpr(ga[i], sa[i], 6) {
+			return
+		}
+	}
+	okShape = okSub
+	return
 }
 
 // ephemeralCtxEffect: the call's context argument is the branch of a CacheContext() whose write-back function is never
